@@ -920,7 +920,8 @@ def check(run):
             res = common.build_props("Props/C19.v")
             run.add_build(res, "make -C coq Props/C19.vo (coqc 8.16.1, full .vo) + Print Assumptions per theorem")
             # the part of `custom types inherit` that is evaluated on the schema family's generated tables
-            mine = ("Props/C19Inherit.v", "Proofs/C19Inherit.v", "Proofs/C19InheritTables.v", "Model/RegistryBuilder.v")
+            mine = ("Props/C19Inherit.v", "Proofs/C19Inherit.v", "Proofs/C19InheritRefine.v", "Proofs/C19InheritTables.v",
+                    "Proofs/C19Bridge.v", "Model/RegistryBuilder.v")
             try:
                 import translate_all
                 translate_all._tables()
